@@ -29,7 +29,7 @@ def oracle(world, cs, flight_len, total):
     st = cs["stream"]
     regs = {r["name"]: r for r in world["regs"]}
     occ = sum(1 for r in world["regs"] if r["phantom"] == cs["dst"] and r["state"] in ("valid", "tracked"))
-    c = {"t": "none", "ok": False, "terr": False, "H": 0, "pofs": 0, "total": total, "occ": occ, "reg": ""}
+    c = {"t": "none", "ok": False, "terr": False, "H": 0, "pofs": 0, "total": total, "occ": occ, "reg": "", "own": False}
     if st["from"]:
         r = regs[st["from"]]
         ct = st["client_t"] or r["transport"]
@@ -70,11 +70,13 @@ def oracle(world, cs, flight_len, total):
         g = st["gen"]
         if g.startswith("static:"):
             c["pofs"] = PLEN[int(g.split(":")[1])]
+    # R, the registration whose table history Classify.tla follows: named by a case of a history (own_reg), else the one the flight is for
+    c["own"] = (st["from"] == cs["own_reg"]) if "own_reg" in cs else (c["ok"] or c["terr"])
     return c
 
 
 FINAL_KEYS = {"matched": "", "matched_reg": "", "used": False, "want_n": 0, "fwd_ok": False, "reply_ok": False,
-              "covert_conns": 0, "to_peer": 0, "unread": 0}
+              "covert_conns": 0, "to_peer": 0, "unread": 0, "tab": ""}
 
 
 def run_cases(ctx, worlds_cases, par=300, timeout=3000, epoch_ms=0):
@@ -89,7 +91,7 @@ def run_cases(ctx, worlds_cases, par=300, timeout=3000, epoch_ms=0):
                 if c["id"] in idx:
                     raise vlib.InfraError("duplicate case id " + c["id"])
                 idx[c["id"]] = (w, c)
-                f.write(json.dumps(c) + "\n")
+                f.write(json.dumps({k: v for k, v in c.items() if k != "hist"}) + "\n")
     res = ctx.go_test(PKG, FILES, "main", "^TestVerifClassify$", env={"VERIF_IN": inp, "VERIF_OUT": outp, "VERIF_PAR": par, "VERIF_EPOCH_MS": epoch_ms},
                       extra_overlays=BRIDGE, timeout=timeout)
     try:
@@ -139,9 +141,15 @@ def run_cases(ctx, worlds_cases, par=300, timeout=3000, epoch_ms=0):
 
 
 def to_trace(w, cs, rec):
+    """One connection as Trace_Classify events.  A stand-alone case starts a history of its own (Start: the table holds R as valid
+    iff the stream is R's flight); a case of a history (cs["hist"]) continues it: the table operations applied before it, then NextConn."""
     fin = rec["final"]
-    c = oracle(w, cs, fin.get("flight_len", 0), fin.get("c2s_written", 0))
-    tr = [{"a": "Start", "c": c, "case": cs["id"]}]
+    h = cs.get("hist")
+    c = oracle(h["oracle_world"] if h else w, cs, fin.get("flight_len", 0), fin.get("c2s_written", 0))
+    if h and h["k"] > 0:
+        tr = [dict(e) for e in rec.get("pre", [])] + [{"a": "NextConn", "c": c, "case": cs["id"]}]
+    else:
+        tr = [{"a": "Start", "c": c, "case": cs["id"], "tab": h["tab0"] if h else ("valid" if c["own"] else "gone")}]
     for e in rec["ev"]:
         e = dict(e)
         e.pop("ms", None)
@@ -160,14 +168,23 @@ def to_trace(w, cs, rec):
     return tr, c
 
 
-def validate(ctx, pid, results, label):
-    """Trace-validates all case records; on rejection isolates and reports the offending cases."""
+def validate(ctx, pid, results, label, histories=()):
+    """Trace-validates all case records (stand-alone connections: one trace each; histories: the connections of one history, in
+    order, form one trace); on rejection isolates and reports the offending cases."""
     sdir = ctx.spec_copy("Classify")
-    traces, metas = [], []
+    traces, metas = [], []          # metas[i]: [(first event index, w, cs, rec, c)] - one entry per connection of the trace
     for (w, cs, rec) in results:
         tr, c = to_trace(w, cs, rec)
         traces.append(tr)
-        metas.append((w, cs, rec, c))
+        metas.append([(0, w, cs, rec, c)])
+    for conns in histories:
+        tr, parts = [], []
+        for (w, cs, rec) in conns:
+            t1, c = to_trace(w, cs, rec)
+            parts.append((len(tr), w, cs, rec, c))
+            tr += t1
+        traces.append(tr)
+        metas.append(parts)
     nviol = 0
     pending = list(range(len(traces)))
     rounds = 0
@@ -190,19 +207,201 @@ def validate(ctx, pid, results, label):
         if bad is None:
             raise vlib.InfraError("trace validation failed outside any trace: %s" % r["out"][-1500:])
         i = pending[bad]
-        w, cs, rec, c = metas[i]
         evi = reached - pos
+        first, w, cs, rec, c = [p for p in metas[i] if p[0] <= evi][-1]
         ev = traces[i][evi] if evi < len(traces[i]) else None
         inv = r["inv"]
         kind = classify_violation(c, cs, ev, inv, rec)
+        where = ""
+        if cs.get("hist"):
+            kind = "history:%s:%s" % (cs["hist"]["ctx"], kind)
+            where = " - connection %d of the history %s" % (cs["hist"]["k"] + 1, cs["hist"]["text"])
         ctx.violation("%s:%s" % (label, kind),
-                      "real handler run is not a behaviour of Classify.tla (%s) - case %s: %s; offending event #%d %s"
-                      % (("invariant " + inv) if inv else "trace rejected", cs["id"], json.dumps(cs["stream"]), evi, json.dumps(ev)[:300]),
-                      {"case": cs, "oracle": c, "event_index": evi, "event": ev, "events": rec["ev"][:60], "final": rec["final"], "invariant": inv})
+                      "real handler run is not a behaviour of Classify.tla (%s) - case %s: %s; offending event #%d %s%s"
+                      % (("invariant " + inv) if inv else "trace rejected", cs["id"], json.dumps(cs["stream"]), evi - first, json.dumps(ev)[:300], where),
+                      {"case": {k: v for k, v in cs.items() if k != "hist"}, "oracle": c, "event_index": evi - first, "event": ev, "events": rec["ev"][:60],
+                       "final": rec["final"], "invariant": inv, "history": cs["hist"]["text"] if cs.get("hist") else None})
         nviol += 1
         accepted_total += bad
         pending = pending[bad + 1:]
     return {"traces": len(traces), "accepted": accepted_total, "rejected": nviol, "sdir": sdir}
+
+
+# ------------------------------------------------------------------------------------------------------------------
+# Histories of one phantom (the table dimension of Classify.tla): stage B replays every history Gen_Classify enumerates
+# into the real RegistrationManager + handler and compares, step by step, what the table holds for R and whether each
+# connection was matched / marked with what TLC computed; stage C validates each history's event log as ONE trace.
+OPS = {"Validate": "validate", "SweepIdle": "expire", "Retrack": "retrack"}
+# (transport, prefix id) of R / of the other client on the phantom
+VARIANTS = [("min", 0), ("prefix", 1), ("obfs4", 0), ("prefix", 0), ("min", 0), ("prefix", 7), ("prefix", 3), ("obfs4", 0)]
+OTHERS = [("prefix", 2), ("min", 0), ("min", 0), ("obfs4", 0), ("prefix", 9)]
+
+
+def split_history(h):
+    conns, ops, cur = [], [], None
+    for e in h:
+        a = e["a"]
+        if a in ("Start", "NextConn"):
+            cur = {"kind": e["kind"], "ops": ops, "swept": False, "matched": False, "used": False}
+            ops = []
+        elif a == "Swept":
+            cur["swept"] = True
+        elif a == "Return":
+            cur.update(matched=e["matched"], used=e["used"], tab=e["tab"], why=e["why"])
+            conns.append(cur)
+            cur = None
+        elif a in OPS:
+            ops.append((a, e["tab"]))
+    return h[0]["tab"], conns
+
+
+def history_text(tab0, conns):
+    out = [tab0]
+    for cn in conns:
+        out += [o for (o, _) in cn["ops"]]
+        out.append(cn["kind"] + ("+Swept" if cn["swept"] else "") + ("" if cn["matched"] else "(rejected)"))
+    return " > ".join(out)
+
+
+def histories_stage(ctx, pid, label, compare_used=True):
+    thorough = ctx.tier == "thorough"
+    rng = ctx.rng
+    sdir = ctx.spec_copy("Classify")
+    r = ctx.tlc(sdir, "Gen_Classify.tla", "Gen_Classify_thorough.cfg" if thorough else "Gen_Classify.cfg", timeout=900, workers=8)
+    if r["inv"]:
+        raise vlib.InfraError("Gen_Classify: %s\n%s" % (r["inv"], r["out"][-1500:]))
+    hs = sorted({json.dumps(h, sort_keys=True) for h in ctx.behaviours(r)})
+    hs = [json.loads(x) for x in hs]
+    if len(hs) < 100:
+        raise vlib.InfraError("Gen_Classify printed only %d histories" % len(hs))
+    wd = {"phantoms": {}, "regs": []}      # what the driver builds (R in the state the history starts from)
+    wo = {"phantoms": wd["phantoms"], "regs": []}   # what the oracle reads: whose flight a stream is (R's state is the table's business)
+    by_k, sessions = {}, []
+    cover = {"own-found-after-validate-with-earlier-lookup": 0, "own-rejected-after-sweeper-race": 0, "own-found-after-reregistration": 0,
+             "own-rejected-while-tracked": 0}
+    reps = 3 if thorough else 1
+    n = 0
+    for hi, h in enumerate(hs):
+        tab0, conns = split_history(h)
+        text = history_text(tab0, conns)
+        seen_tracked_conn = swept_before = was_gone = False
+        tabnow = tab0
+        for k, cn in enumerate(conns):
+            for (o, t) in cn["ops"]:
+                was_gone = was_gone or t == "gone"
+            before = cn["ops"][-1][1] if cn["ops"] else tabnow
+            if cn["kind"] == "own":
+                if cn["matched"] and seen_tracked_conn and any(o == "Validate" for (o, _) in cn["ops"]):
+                    cover["own-found-after-validate-with-earlier-lookup"] += 1
+                if not cn["matched"] and swept_before and before == "gone":
+                    cover["own-rejected-after-sweeper-race"] += 1
+                if cn["matched"] and (was_gone or swept_before):
+                    cover["own-found-after-reregistration"] += 1
+                if not cn["matched"] and before == "tracked":
+                    cover["own-rejected-while-tracked"] += 1
+            seen_tracked_conn = seen_tracked_conn or before == "tracked"
+            swept_before = swept_before or cn["swept"]
+            tabnow = cn["tab"]
+        for rep in range(reps):
+            n += 1
+            v = (hi + ctx.seed + rep * 3) % len(VARIANTS)
+            (rt, rpx), (ot, opx) = VARIANTS[v], OTHERS[(hi + rep) % len(OTHERS)]
+            ph = "H%d" % n
+            wd["phantoms"][ph] = ("2001:48a8:687f:2::%x:%x" % (n // 250 + 1, n % 250 + 1)) if n % 7 == 3 else "192.122.%d.%d" % (191 + n // 250, 1 + n % 250)
+            R, O = "h%dR" % n, "h%dO" % n
+            base = {"phantom": ph}
+            rreg = dict(base, name=R, secret="s-" + R, transport=rt, prefix_id=rpx)
+            oreg = dict(base, name=O, secret="s-" + O, transport=ot, prefix_id=opx, state="valid")
+            wd["regs"] += [dict(rreg, state={"valid": "valid", "tracked": "tracked", "gone": "absent"}[tab0]), oreg]
+            wo["regs"] += [dict(rreg, state="valid"), oreg]
+            sess = []
+            prev = ""
+            for k, cn in enumerate(conns):
+                if cn["kind"] == "own":
+                    st = stream(**{"from": R, "client_px": rpx, "early": 16, "late": 8 if cn["matched"] else 0})
+                elif cn["kind"] == "other":
+                    st = stream(**{"from": O, "client_px": opx, "early": 16, "late": 8})
+                else:
+                    st = stream(gen="random", len=rng.choice([64, 80, 200]))
+                c = case("%s-h%d-%d" % (label, n, k), ph, st, [rng.randrange(1, 40)] if st["from"] else [], pace_ms=2, peer_close=not cn["matched"])
+                c.update(after=prev, ops=["%s:%s" % (OPS[o], R) for (o, _) in cn["ops"]], watch=R, sweep_on_match=cn["swept"], own_reg=R)
+                if not cn["matched"]:
+                    c["client_wait_ms"] = 700      # an interactive (obfs4) client that is not answered gives up
+                last = cn["ops"][-1][0] if cn["ops"] else ("Swept" if k and conns[k - 1]["swept"] else "conn")
+                c["hist"] = {"k": k, "n": n, "tab0": tab0, "oracle_world": wo, "spec": cn, "text": text, "R": R, "O": O, "transport": rt,
+                             "ctx": "%s-%s" % (cn["kind"], "first-on-%s" % tab0 if k == 0 else "after-" + last)}
+                by_k.setdefault(k, []).append(c)
+                sess.append(c)
+                prev = c["id"]
+            sessions.append(sess)
+    if min(cover.values()) == 0:
+        raise vlib.InfraError("the generated histories do not cover %s" % cover)
+    cases = [c for k in sorted(by_k) for c in by_k[k]]
+    ctx.log("B: %d histories (%d connections) generated by TLC from Gen_Classify (%d distinct states)" % (len(sessions), len(cases), r["distinct"]))
+    # (a case waits for its predecessor while holding its slot: the k-th connections of all histories are listed before the (k+1)-th)
+    res = {cs["id"]: (w, cs, rec) for (w, cs, rec) in run_cases(ctx, [(wd, cases)], par=450)}
+    conform, diverged = [], []
+    steps = 0
+    for sess in sessions:
+        nbad = 0
+        for cs in sess:
+            _, _, rec = res[cs["id"]]
+            h, fin = cs["hist"], rec["final"]
+            sp = h["spec"]
+            pre = rec.get("pre", [])
+            bad = None
+            # once the real table has left the history the specification follows, only what the property itself names is still judged
+            # on the connections that come after: was the flight accepted / found
+            if rec.get("registry_blocked") and not nbad:
+                bad = ("registry-blocked", "the registration table no longer answers")
+            elif rec.get("op_error") and not nbad:
+                bad = ("table-op-failed", "table operation failed on the real table: %s (the specification's table allows it)" % rec["op_error"])
+            elif not nbad:
+                for (o, t), e in zip(sp["ops"], pre):
+                    steps += 1
+                    if e["tab"] != t:
+                        bad = ("table:after-%s:real=%s,spec=%s" % (o, e["tab"], t), "after %s the real table holds R as %r, the specification as %r" % (o, e["tab"], t))
+                        break
+            if not bad:
+                steps += 1
+                m = bool(fin.get("matched"))
+                want_reg = h["R"] if sp["kind"] == "own" else h["O"]
+                if m and not sp["matched"]:
+                    bad = ("accepted-but-spec-rejects", "the connection was matched to %s (%s) and proxied; in the specification R is %s and the flight is rejected"
+                           % (fin.get("matched_reg"), fin.get("matched"), "not in the table" if sp["tab"] == "gone" else sp["tab"]))
+                elif sp["matched"] and not m:
+                    bad = ("not-found-but-spec-matches", "the client's flight was not recognised (client: %s); in the specification its registration is valid and it is found"
+                           % (fin.get("client_err") or "no reply"))
+                elif m and fin.get("matched_reg") != want_reg:
+                    bad = ("matched-another-registration", "matched to %s, expected %s" % (fin.get("matched_reg"), want_reg))
+                elif nbad:
+                    pass
+                elif fin.get("tab") != sp["tab"]:
+                    bad = ("table:after-connection%s:real=%s,spec=%s" % ("+Swept" if sp["swept"] else "", fin.get("tab"), sp["tab"]),
+                           "when the connection is over the real table holds R as %r, the specification as %r" % (fin.get("tab"), sp["tab"]))
+                elif compare_used and m and bool(fin.get("used")) != sp["used"]:
+                    bad = ("used:real=%s,spec=%s" % (fin.get("used"), sp["used"]), "registration marked used: real %s, specification %s" % (fin.get("used"), sp["used"]))
+                elif sp["swept"] and sp["matched"] and not any(e["a"] == "Swept" for e in rec["ev"]):
+                    raise vlib.InfraError("history %s: the sweeper did not get in between lookup and MarkActive (case %s)" % (h["text"], cs["id"]))
+            if bad:
+                nbad += 1
+                ctx.violation("%s:replay:%s:%s" % (label, h["ctx"], bad[0]),
+                              "replaying the table history [%s] (R: %s) into the real station, connection %d (%s): %s"
+                              % (h["text"], h["transport"], h["k"] + 1, h["ctx"], bad[1]),
+                              {"history": h["text"], "case": {k: v for k, v in cs.items() if k != "hist"}, "spec": sp, "pre": pre, "final": fin, "events": rec["ev"][:40]})
+        (diverged if nbad else conform).append([res[cs["id"]] for cs in sess])
+    ctx.stage("B", histories=len(sessions), connections=len(cases), steps_compared=steps, conform=len(conform), diverged=len(diverged), covers=cover,
+              generator_states=r["distinct"])
+    # C: every history's event log is one trace of Classify.tla (a few of the diverged ones too: the trace names the offending event)
+    summary = validate(ctx, pid, [], label, histories=conform + diverged[:4])
+    ctx.log("B: %d histories conform, %d diverge; C: %d history traces, %d accepted, %d rejected"
+            % (len(conform), len(diverged), summary["traces"], summary["accepted"], summary["rejected"]))
+    ctx.stage("C", history_traces=summary["traces"], history_traces_accepted=summary["accepted"], history_traces_rejected=summary["rejected"])
+    if conform:
+        ctx.sample({"history": conform[len(conform) // 2][0][1]["hist"]["text"],
+                    "steps": [{"case": cs["id"], "ops": cs["ops"], "spec": cs["hist"]["spec"], "real": {k: rec["final"].get(k) for k in ("matched", "matched_reg", "used", "tab")}}
+                              for (_, cs, rec) in conform[len(conform) // 2]]})
+    return {"histories": len(sessions), "connections": len(cases), "accepted": summary["accepted"], "distinct": {h["text"] for s in sessions for h in [s[0]["hist"]]}}
 
 
 def classify_violation(c, cs, ev, inv, rec):
@@ -246,8 +445,17 @@ def stage_a(ctx):
     b3 = ctx.tlc(sdir, "MC_Classify.tla", "MC_Classify_shareddl.cfg", timeout=300, workers=4, count=False)
     if b3["inv"] != "DeadlineUnpredictable":
         raise vlib.InfraError("Classify instance whose deadline comes from the generator the legacy phantom selection seeds should violate DeadlineUnpredictable, got %s" % b3["inv"])
-    ctx.stage("A", invariants=["DeadlineUnpredictable", "NoBytes", "NoEarlyClose", "KeepsReading", "MatchSound", "ConsumeExact", "FoundWhenComplete",
+    b4 = ctx.tlc(sdir, "MC_Classify.tla", "MC_Classify_reinsert.cfg", timeout=300, workers=4, count=False)
+    if b4["inv"] != "MatchSound":
+        raise vlib.InfraError("Classify instance whose MarkActive files the registration again when the sweeper was faster should violate MatchSound "
+                              "(a replay of the expired registration's flight is accepted), got %s" % b4["inv"])
+    b5 = ctx.tlc(sdir, "MC_Classify.tla", "MC_Classify_stale.cfg", timeout=300, workers=4, count=False)
+    if b5["inv"] not in ("NeverDropsMatching", "FoundWhenComplete"):
+        raise vlib.InfraError("Classify instance whose lookups memoise the per-phantom view across a validation should violate NeverDropsMatching / "
+                              "FoundWhenComplete (the validated client is not found), got %s" % b5["inv"])
+    ctx.stage("A", invariants=["TableSound", "DeadlineUnpredictable", "NoBytes", "NoEarlyClose", "KeepsReading", "MatchSound", "ConsumeExact", "FoundWhenComplete",
                                "NeverDropsMatching", "MarkedUsed", "RegistryFree", "Recognised", "Terminates"],
               nonvacuity="instance with obfs4 giving up before the handshake completes violates %s; instance whose MarkActive returns without "
-              "unlocking when the sweeper removed the registration first violates RegistryFree" % b["inv"])
+              "unlocking when the sweeper removed the registration first violates RegistryFree; instance whose MarkActive files the swept registration "
+              "again violates MatchSound on the next connection; instance whose lookups keep a per-phantom view across Validate violates %s" % (b["inv"], b5["inv"]))
     return r
